@@ -47,6 +47,7 @@ structure Cfg where
   prefixFixed : Bool := false     -- user names `param_…` / `innerParam_…` are renamed like blanks (c612461)
   universeFixed : Bool := false   -- so are predeclared identifiers (`nil`, `string`, `len`, …) (568d1b4)
   resultsFixed : Bool := false    -- result names are dropped when one is `f` / `param_…` / `innerParam_…` (18449d4)
+  resultOuterFixed : Bool := false -- uncurry: … and when an inner RESULT bears the name of an outer parameter
   deriving DecidableEq, Repr, Inhabited
 
 /-- the generator as it is at the pinned commit -/
@@ -54,7 +55,7 @@ def Cfg.current : Cfg := {}
 /-- all defect classes repaired -/
 def Cfg.fixed : Cfg :=
   { unnamedFixed := true, shadowFixed := true, crossFixed := true, voidFixed := true, prefixFixed := true,
-    universeFixed := true, resultsFixed := true }
+    universeFixed := true, resultsFixed := true, resultOuterFixed := true }
 
 def blank : Name := ['_']
 def fName : Name := ['f']
@@ -238,6 +239,14 @@ def usable (n : Name) : Bool := n != [] && n != blank
 def nodupB : List Name → Bool
   | [] => true
   | n :: rest => !rest.contains n && nodupB rest
+
+/-- uncurry merges the outer parameters into the signature of the returned function: a RESULT of that
+function may bear the name of an outer parameter (`func(a int) func(b string) (a int)`). The code as
+it is keeps the name (`a` declared twice); a repaired generator drops the result names then. -/
+def effResultsUncurry (cfg : Cfg) (outerNames : List Name) (rs : List Name) : List Name :=
+  let r := effResults cfg rs
+  if cfg.resultOuterFixed && r.any (fun n => n != [] && n != blank && outerNames.contains n) then r.map (fun _ => [])
+  else r
 
 /-- the named results of the innermost function literal are declared in the scope of its parameters
 `inner` and shadow everything outside (`f` and the parameters `outerPs` of enclosing literals): the
